@@ -6,11 +6,14 @@ From Coq Require Import Permutation.
 From DV Require Import Pipeline Run_C16 C16P.
 
 (* The statement at full strength: after any schedule in which every mutation went through its
-   phases, the state is the serial application of the acknowledged mutations in some order. *)
+   phases, the state is what the acknowledged mutations give when applied one after another in
+   some order, each with the abstract semantics spec_apply of run/Run_C16.v (assigned fields
+   change, all others keep their value; single reference = replace, array reference = add,
+   null = remove; a given room moves the row). *)
 Definition C16_full : Prop :=
   forall d ms sigma s,
     run_sched d ms sigma = Some s -> complete (length ms) sigma = true ->
-    exists pi, Permutation (s_acked s) pi /\ s_db s = fold_left (apply ms) pi d.
+    exists pi, Permutation (s_acked s) pi /\ s_db s = fold_left (spec_apply_i ms) pi d.
 
 (* (1) the faithful model violates it *)
 Theorem C16_refuted : ~ C16_full.
@@ -20,38 +23,51 @@ Print Assumptions C16_refuted.
 (* the three closed witnesses (schedule R1 R2 V1 W1 V2 W2 on one row); the harness replays
    exactly these against the real phases on every run (cases "witness:*") *)
 Theorem C16_refuted_fields :
-  let c := CSched wit_db 3%N wit_fields wit_sigma false in
+  let c := CSched wit_db 4%N wit_fields wit_sigma false in
   known_C16 c = [1] /\ complete 2 wit_sigma = true /\
   (exists s, run_sched wit_db wit_fields wit_sigma = Some s /\ s_acked s = [0; 1]%nat /\
      (exists r, find_row 1%N (s_db s) = Some r /\
                 get_field 0%N (r_fields r) = Some 1 /\ get_field 1%N (r_fields r) = Some 22) /\
      (forall pi, Permutation [0; 1]%nat pi ->
-                 obs_db 3%N (fold_left (apply wit_fields) pi wit_db) <> obs_db 3%N (s_db s))) /\
+                 obs_db 4%N (fold_left (spec_apply_i wit_fields) pi wit_db) <> obs_db 4%N (s_db s))) /\
   spec_C16 c (run_C16 c) = false.
 Proof. exact refuted_fields. Qed.
 Print Assumptions C16_refuted_fields.
 
 Theorem C16_refuted_reference :
-  let c := CSched wit_db 3%N wit_refs wit_sigma false in
+  let c := CSched wit_db 4%N wit_refs wit_sigma false in
   known_C16 c = [1] /\ complete 2 wit_sigma = true /\
   (exists s, run_sched wit_db wit_refs wit_sigma = Some s /\ s_acked s = [0; 1]%nat /\
      length (get_edges 1%N (edges_of 1%N (s_db s))) = 2%nat /\
      (forall pi, Permutation [0; 1]%nat pi ->
-                 length (get_edges 1%N (edges_of 1%N (fold_left (apply wit_refs) pi wit_db))) = 1%nat)) /\
+                 length (get_edges 1%N (edges_of 1%N (fold_left (spec_apply_i wit_refs) pi wit_db))) = 1%nat)) /\
   spec_C16 c (run_C16 c) = false.
 Proof. exact refuted_reference. Qed.
 Print Assumptions C16_refuted_reference.
 
 Theorem C16_refuted_room_move :
-  let c := CSched wit_db 3%N wit_room wit_sigma false in
+  let c := CSched wit_db 4%N wit_room wit_sigma false in
   known_C16 c = [1] /\ complete 2 wit_sigma = true /\
   (exists s, run_sched wit_db wit_room wit_sigma = Some s /\ s_acked s = [0; 1]%nat /\
      (exists r, find_row 1%N (s_db s) = Some r /\ r_room r = Some 1%N /\ get_field 0%N (r_fields r) = Some 1) /\
      (forall pi, Permutation [0; 1]%nat pi ->
-                 exists r, find_row 1%N (fold_left (apply wit_room) pi wit_db) = Some r /\ r_room r = Some 2%N)) /\
+                 exists r, find_row 1%N (fold_left (spec_apply_i wit_room) pi wit_db) = Some r /\ r_room r = Some 2%N)) /\
   spec_C16 c (run_C16 c) = false.
 Proof. exact refuted_room_move. Qed.
 Print Assumptions C16_refuted_room_move.
+
+(* class 2 (a defect of the SERIAL behaviour): strictly sequential schedule, the first mutation
+   only names another room: acknowledged, nothing is written *)
+Theorem C16_refuted_room_only :
+  let c := CSched wit_db 4%N wit_room_only seq_sigma false in
+  known_C16 c = [2] /\ windows_ok wit_room_only [] seq_sigma = true /\
+  (exists s, run_sched wit_db wit_room_only seq_sigma = Some s /\ s_acked s = [0; 1]%nat /\
+     (exists r, find_row 1%N (s_db s) = Some r /\ r_room r = Some 1%N) /\
+     (forall pi, Permutation [0; 1]%nat pi ->
+                 exists r, find_row 1%N (fold_left (spec_apply_i wit_room_only) pi wit_db) = Some r /\ r_room r = Some 2%N)) /\
+  spec_C16 c (run_C16 c) = false.
+Proof. exact refuted_room_only. Qed.
+Print Assumptions C16_refuted_room_only.
 
 (* (2) what does hold, for every schedule of any number of mutations and any length (complete
    or not): if no Read of a mutation on row x falls between the Read and the Write of another
@@ -64,18 +80,32 @@ Theorem C16_serial_ok : forall d ms sigma s,
 Proof. exact serial_ok. Qed.
 Print Assumptions C16_serial_ok.
 
+(* the code's read-then-write of one mutation alone IS the abstract semantics of that mutation,
+   except for a room move that changes nothing else (class 2) *)
+Theorem C16_serial_step_refines_spec : forall m d,
+  ignored_move d m = false ->
+  match read d m with Some p => write p d | None => d end = spec_apply m d.
+Proof. exact apply1_spec. Qed.
+Print Assumptions C16_serial_step_refines_spec.
+
+Theorem C16_serial_spec : forall d ms sigma s,
+  run_sched d ms sigma = Some s -> windows_ok ms [] sigma = true -> moves_ok ms d (s_acked s) = true ->
+  s_db s = fold_left (spec_apply_i ms) (s_acked s) d.
+Proof. exact serial_spec. Qed.
+Print Assumptions C16_serial_spec.
+
 (* the reason: a write of a mutation on another row changes nothing a read can see *)
 Theorem C16_other_rows_frame : forall d m mo p,
   read d mo = Some p -> m_row mo <> m_row m -> read (write p d) m = read d m.
 Proof. exact other_rows_frame. Qed.
 Print Assumptions C16_other_rows_frame.
 
-(* (3) the same, on the functions the harness evaluates: outside the known class the oracle
-   accepts what the model predicts the implementation does (acknowledgements + final rows and
-   references equal those of one of the serial orders) *)
+(* (3) the same, on the functions the harness evaluates: outside the known classes (no
+   overlapping windows on one row; no order in which a room move is ignored) the oracle — final
+   rows and references = abstract sequential semantics of the acknowledged mutations in some
+   order — accepts what the model predicts the implementation does; complete or not *)
 Theorem C16_outside_known : forall d nf ms sigma b,
   known_C16 (CSched d nf ms sigma b) = [] ->
-  complete (length ms) sigma = true ->
   run_sched d ms sigma <> None ->
   spec_C16 (CSched d nf ms sigma b) (run_C16 (CSched d nf ms sigma b)) = true.
 Proof. exact outside_known. Qed.
@@ -83,7 +113,7 @@ Print Assumptions C16_outside_known.
 
 Example C16_nonvacuous :
   let c := CSched nv_db 3%N nv_ms nv_sigma false in
-  known_C16 c = [] /\ complete (length nv_ms) nv_sigma = true /\ run_sched nv_db nv_ms nv_sigma <> None /\
+  known_C16 c = [] /\ run_sched nv_db nv_ms nv_sigma <> None /\
   windows_ok nv_ms [] [R 0; R 2; V 0; W 0; V 2; W 2]%nat = false.
 Proof. exact nonvacuous. Qed.
 Print Assumptions C16_nonvacuous.
